@@ -513,7 +513,7 @@ def _exec_cli(sc, ini, out):
         argv.append("--list-item-labels")
     elif action == "item-value":
         argv += ["--item-value", "%s:%s" % (sc["query"]["section"], sc["query"]["key"])]
-    out["argv"] = argv[2:]
+    out["argv"] = [x for x in argv[2:] if x != out_path]     # (scratch paths are random: keep them out of the record)
     old = (sys.argv, sys.stdout, sys.stderr)
     sys.argv = argv
     sys.stdout = io.StringIO()
@@ -762,6 +762,7 @@ def run_job(job):
         ref, res, v = run_scenario(sc, scratch)
         st["runs"] += 1
         st["events"] += len(sc["ops"])
+        st.setdefault("evdigs", []).append(short([ref, res], 20))
         bump("route=" + sc["route"])
         bump("action=" + sc["action"])
         if ref.get("harness_error") or res.get("harness_error"):
